@@ -18,7 +18,28 @@ def scorings(al):
         ('dict-max', ({('A', 'B'): 2, ('B', 'A'): 3, ('A', 'A'): 4, ('C', 'C'): 0.5}, 1, 'max')),
         ('dict-max-gap0.5', ({('A', 'B'): 2, ('B', 'C'): -1.5, ('A', 'A'): 4}, 0.5, 'max')),
         ('dict-min-gap2', ({('A', 'B'): 0.5, ('A', 'C'): 3, ('B', 'B'): -1}, 2, 'min')),
+        # entries equal to zero, listed in one orientation only or with a different reversed entry
+        ('dict-zero-max', ({('A', 'B'): 0, ('B', 'C'): 0.0, ('C', 'A'): 3, ('A', 'C'): 0, ('A', 'A'): 2}, 1, 'max')),
+        ('dict-zero-min-gap0.5', ({('A', 'B'): 0, ('B', 'A'): 2, ('C', 'C'): 0, ('B', 'C'): -0.5}, 0.5, 'min')),
     ]
+
+
+def model_fn(spec):
+    """The documented meaning of a dictionary scoring, written independently of the library: cost of substituting a by b =
+    matrix[(a,b)] if listed, else matrix[(b,a)] if listed, else the default (-1 match / +1 mismatch); with opt='max' the listed
+    values are similarities (cost = -value).  Returns (cost, gap) like the library's substitution functions."""
+    if spec is None:
+        return lambda a, b: ((-1.0 if a == b else 1.0), 1)
+    matrix, gap, opt = spec
+    sign = -1.0 if opt == 'max' else 1.0
+
+    def f(a, b):
+        if (a, b) in matrix:
+            return sign * matrix[(a, b)], gap
+        if (b, a) in matrix:
+            return sign * matrix[(b, a)], gap
+        return (-1.0 if a == b else 1.0), gap
+    return f
 
 
 def all_alignments(s1, s2):
@@ -48,14 +69,13 @@ def score_of(cols, fn, gap):
 
 
 def check_case(acc, alignment, s1, s2, sname, spec):
+    fn = model_fn(spec)          # the reference scores with its own reading of the scoring, never with the library's function
     if spec is None:
-        fn = alignment._default_substitution_fn
         gap = 1
         kw = {}
     else:
-        fn = alignment.make_substitution_fn(spec[0], gap=spec[1], opt=spec[2])
         gap = spec[1]
-        kw = {'substitution': fn}
+        kw = {'substitution': alignment.make_substitution_fn(spec[0], gap=spec[1], opt=spec[2])}
     best = -inf
     nbest = 0
     needs_indel = False
